@@ -91,6 +91,30 @@ def mixed_state_events(ctx):
                     ev.append(opened)
                 else:
                     ev.append({'k': 'mixed', 'label': '%s: subkey %d after protect() of the key' % (label, j + 1), 'op': 'protect', 'outcome': 'secret-lost'})
+        # a protect() that FAILS (a cipher that cannot be used) leaves the key as it was: unprotected, or under its old passphrase
+        k0 = K.new_key('ed25519', name='Failing Protect', email='fp@x.org', subs=[('cv25519', {KeyFlags.EncryptCommunications})])
+        for state in ('unprotected', 'protected and unlocked'):
+            for cname in ('Twofish256', 'Plaintext', 'IDEA'):
+                k = pgpy.PGPKey.from_blob(bytes(k0))[0]
+                with warnings.catch_warnings():
+                    warnings.simplefilter('ignore')
+                    if state != 'unprotected':
+                        k.protect('old pass', SymmetricKeyAlgorithm.AES128, HashAlgorithm.SHA256)
+                    before = bytes(k)
+                    try:
+                        if state == 'unprotected':
+                            k.protect('new pass', getattr(SymmetricKeyAlgorithm, cname), HashAlgorithm.SHA256)
+                        else:
+                            with k.unlock('old pass'):
+                                k.protect('new pass', getattr(SymmetricKeyAlgorithm, cname), HashAlgorithm.SHA256)
+                        continue                      # it worked: nothing to say here
+                    except Exception:
+                        pass
+                    try:
+                        same = bytes(k) == before
+                    except Exception:
+                        same = False
+                ev.append({'k': 'mixed', 'label': 'protect() with %s raised on a key that is %s' % (cname, state), 'op': 'protect-fails', 'outcome': 'unchanged' if same else 'changed'})
     finally:
         keylife.restore_s2k(saved)
     return ev
